@@ -4,7 +4,12 @@ checks against it, and keep it as /verif/seeded/<prop>-<n>/ (patch.diff, demo_te
 import sys, os, json, shutil, subprocess
 sys.path.insert(0, os.path.dirname(os.path.abspath(__file__)))
 import seedtest
-RELATED = {("C%02d" % i): ["C%02d" % i] for i in range(1, 21)}
+RELATED = {
+ "C01": ["C01", "C07"], "C02": ["C02", "C17"], "C03": ["C03", "C18"], "C04": ["C04", "C02"], "C05": ["C05", "C02"],
+ "C06": ["C06", "C02"], "C07": ["C07", "C01"], "C08": ["C08", "C06"], "C09": ["C09", "C12"], "C10": ["C10", "C13"],
+ "C11": ["C11", "C13"], "C12": ["C12", "C17"], "C13": ["C13", "C14", "C17"], "C14": ["C14", "C13", "C11", "C17"], "C15": ["C15", "C13", "C14"],
+ "C16": ["C16", "C18"], "C17": ["C17", "C07"], "C18": ["C18", "C03", "C06"], "C19": ["C19", "C14"], "C20": ["C20", "C13"],
+}
 prop, n, src = sys.argv[1], sys.argv[2], sys.argv[3]
 ids = list(dict.fromkeys(RELATED[prop] + sys.argv[4:]))
 conf = seedtest.confirm(src)
